@@ -490,6 +490,13 @@ class Engine:
             if other == "":
                 return z3.Not(c.nonempty())
             raise Unsupported("CondStr == %r" % (other,))
+        if (isinstance(a, Seq) and isinstance(b, list)) or (isinstance(b, Seq) and isinstance(a, list)):
+            sq, ls = (a, b) if isinstance(a, Seq) else (b, a)
+            parts = [sq.ln == len(ls)]
+            for j, el in enumerate(ls):
+                r = self.equal(sq.elem(z3.IntVal(j)), el)
+                parts.append(z3.BoolVal(r) if isinstance(r, bool) else r)
+            return z3.And(*parts)
         if not is_sym(a) and not is_sym(b):
             if isinstance(a, (list, tuple)) and isinstance(b, (list, tuple)) and type(a) == type(b):
                 if len(a) != len(b):
@@ -715,6 +722,7 @@ class Engine:
             return base.elem(zi)
         if isinstance(base, AccList):
             if isinstance(idx, int) and idx < 0: return base.neg_index(idx)
+            if isinstance(idx, int) and idx == 0 and base.first is not None: return base.first
             raise Unsupported("index into havoc'd list")
         if isinstance(base, PhaseConf):
             return SV(base.value(idx), "real")
@@ -1304,6 +1312,11 @@ def _b_len(e, x):
     if isinstance(x, Seq): return SV(x.ln, "int")
     if isinstance(x, (list, tuple, dict, str, set)) and not isinstance(x, HavocDict): return len(x)
     if isinstance(x, Opaque) and "len" in x.methods: return x.methods["len"](e)
+    if isinstance(x, AccList):
+        # unknown prefix + tracked appends: only a lower bound on the length is known
+        n = e.fresh("len_" + x.name.split("#")[0], "int")
+        e.assume(n.z >= len(x.items) + (1 if (x.first is not None and not x.items) else 0))
+        return n
     raise Unsupported("len of %s" % type(x).__name__)
 
 
